@@ -35,6 +35,17 @@ func runFree(base string, seed int64, idx int) (res *seqResult) {
 		return res
 	}
 	d := newDriver(w, rnd, res)
+	d.lateAppend = func(pos int64) bool {
+		found := false
+		w.tr.obs(func() {
+			for _, s := range w.tr.obsSends {
+				if s.Idx == pos && s.Delivered && !s.GotResp {
+					found = true
+				}
+			}
+		})
+		return found
+	}
 	var script []string
 	defer func() {
 		if r := recover(); r != nil {
@@ -126,7 +137,24 @@ func runFree(base string, seed int64, idx int) (res *seqResult) {
 	}
 	probes := 0
 	isWedged := false
+	var parkedSince time.Time
 	for !converged() {
+		// lost wake-up: the follower is live, the notification was delivered when the quiesce phase began, and the
+		// replicator still publishes "follower node is offline". A goroutine that had been woken leaves that state
+		// at once; the grace period only covers scheduling. A second notification then heals it.
+		if st, msg := replica.VerifReplicatorStateType(w.lRep); st == int(models.ReplicatorFailureState) && msg == offlineMsg {
+			if parkedSince.IsZero() {
+				parkedSince = time.Now()
+			} else if time.Since(parkedSince) > 3*time.Second {
+				d.violate("C08/no-resync/online-notification-lost-between-liveness-check-and-park",
+					"free-running loop: the follower is live and its online notification has been delivered, the replicator stays parked in IsReady (a second notification wakes it) [%s]", strings.Join(script, " "))
+				d.count("free.lost_wakeup_healed_by_second_notification", 1)
+				w.lSM.notify(models.NodeOnline)
+				parkedSince = time.Time{}
+			}
+		} else {
+			parkedSince = time.Time{}
+		}
 		if last, ok := wedged(); ok {
 			if probes == 2 {
 				o := d.observe()
